@@ -1,6 +1,7 @@
 package main
 
 import (
+	"encoding/json"
 	"fmt"
 	"reflect"
 	"runtime"
@@ -654,6 +655,9 @@ func c12Alone(r *mon.Run, rl *mon.RaceLog) mon.Workload {
 		}
 		if o.Err != nil {
 			return "error"
+		}
+		if _, merr := json.Marshal(o.V); merr != nil {
+			return "not serialisable: " + mon.Snapshot(o.V) // (a value JSON cannot hold - a non-finite number: compared as it is)
 		}
 		return mon.Snapshot(docs.JSONForm(o.V))
 	}
